@@ -493,4 +493,68 @@ func specU33(data []byte, k int) uint64 {
 //@   ensures err != nil ==> x == nil
 //@   modifies nothing
 
+
+// ---------------------------------------------------------------- C09/C13: section encoder
+
+//@ func subtractPTS(final gots.PTS, initial gots.PTS) gots.PTS
+//@   props C09 C05
+//@   ensures final >= initial ==> result == final-initial
+//@   ensures final < initial ==> result == gots.MaxPtsTicks-(initial-final)
+//@   modifies nothing
+
+//@ func spliceTimeBytes(hasPTS bool, pts gots.PTS) []byte
+//@   props C09 C05
+//@   ensures fresh(result)
+//@   ensures hasPTS ==> len(result) == 5 && result[0] == 0xFE|byte(pts>>32)&0x01 && result[1] == byte(pts>>24) && result[2] == byte(pts>>16) && result[3] == byte(pts>>8) && result[4] == byte(pts)
+//@   ensures !hasPTS ==> len(result) == 1 && result[0] == 0x7E
+//@   modifies nothing
+
+//@ func (c *spliceNull) Data() []byte
+//@   props C09 C05
+//@   ensures len(result) == 0
+//@   modifies nothing
+
+//@ func (c *timeSignal) Data() []byte
+//@   props C09 C05
+//@   requires c != nil
+//@   ensures fresh(result)
+//@   ensures c.hasPTS ==> len(result) == 5 && result[0] == 0xFE|byte(c.pts>>32)&0x01 && result[1] == byte(c.pts>>24) && result[2] == byte(c.pts>>16) && result[3] == byte(c.pts>>8) && result[4] == byte(c.pts)
+//@   ensures !c.hasPTS ==> len(result) == 1 && result[0] == 0x7E
+//@   modifies nothing
+
+// The splice_insert and segmentation-descriptor encoders are not verified: UpdateData relies only
+// on these assumed frame contracts (they allocate their result and write nothing else).
+//@ func (c *spliceInsert) Data() []byte
+//@   trusted
+//@   ensures len(result) < 1<<20
+//@   modifies nothing
+
+//@ func (d *segmentationDescriptor) Data() []byte
+//@   trusted
+//@   ensures len(result) < 1<<20
+//@   modifies nothing
+
+// specDescsAllOK: every entry of the descriptor list is one of the library's descriptors.
+func specDescsAllOK(ds []SegmentationDescriptor) bool {
+	return verifForall(0, len(ds), func(k int) bool { _, ok := ds[k].(*segmentationDescriptor); return ok && ds[k] != nil })
+}
+
+// specSecLen: section_length as UpdateData computes it.
+func specSecLen(cmdLen int, descLoopLen int, stuffing int) int { return 13 + cmdLen + descLoopLen + 4 + stuffing }
+
+//@ func (s *scte35) UpdateData() []byte
+//@   props C09 C13 C05
+//@   requires s != nil && specCmdOK(s.commandInfo) && specDescsAllOK(s.descriptors) && len(s.otherDescriptorBytes) < 1<<20 && len(s.descriptors) < 1<<10 && s.alignmentStuffing < 1<<16
+//@   ensures fresh(result) && len(result) >= 3+13+4 && len(result) < 1<<40
+//@   ensures s.tableHeader.SectionLength == uint16(len(result)-3) && result[0] == s.tableHeader.TableID
+//@   ensures result[2] == byte(s.tableHeader.SectionLength) && result[1]%4 == byte(s.tableHeader.SectionLength>>8)%4 && (result[1]/16)%4 == 3
+//@   ensures result[3] == s.protocolVersion && result[9] == s.cwIndex && result[10] == byte(s.tier>>4) && result[11]/16 == byte(s.tier)%16 && result[13] == byte(s.commandType)
+//@   ensures uint16(result[11]%16)*256+uint16(result[12]) == s.spliceCommandLength%4096
+//@   ensures len(s.data) == len(result) && (len(result) > 0 ==> &s.data[0] == &result[0])
+//@   modifies *s
+//@   loop 1 (rangeindex int, descriptorBytes []byte)
+//@     invariant s != nil && -1 <= rangeindex && rangeindex < len(s.descriptors) && fresh(descriptorBytes) && len(descriptorBytes) >= 2 && len(descriptorBytes) <= 2+len(s.otherDescriptorBytes)+(rangeindex+1)*(1<<20)
+//@     invariant specDescsAllOK(s.descriptors) && s.commandInfo == old(s.commandInfo)
+//@     decreases len(s.descriptors) - rangeindex
+
 var _ = bytes.MinRead
